@@ -119,7 +119,9 @@ CHECKS = {
             "'not yet set' test with the right polarity), a keyed memo (read back only under equality of the key stored "
             "with it), a private helper guarded at all its call sites, or aimed at an operator constructed in the same "
             "function; ignore_args caches only where arguments cannot matter; denotation attributes are never "
-            "re-assigned. Tests build a fresh operator per query, so no history is ever exercised. NOT decided: that a "
+            "re-assigned; every cache-hit shortcut (try pop/get_from_cache ... except CachingError) whose cache name has "
+            "a writer returns the same components as its miss path (H; today both such shortcuts are dormant). Tests "
+            "build a fresh operator per query, so no history is ever exercised. NOT decided: that a "
             "cached or transplanted factorization is numerically valid for the (new) matrix.",
             TRUST + "; per-call autograd ctx objects and the settings classes (C17) are not operator history.",
             "DESIGN.md section 3, C12"),
